@@ -155,23 +155,25 @@ def _validators(cfg, rep):
     for name, mk in makers.items():
         ex = Explorer([], timeout_ms=20000)
         pv = z3.Real("p")
+        pn = z3.Bool("p#nan")  # the probability may also be NaN (a float that is neither < 0 nor > 1)
 
         def path(mk=mk):
             try:
-                mk(XF(pv))
+                mk(XF(pv, pn))
                 return "accepted"
             except ValueError:
                 return "rejected"
         for res in ex.run(path):
             rep.paths += 1
             rep.nontrivial_paths += 1
-            inrange = And(rcmp(">=", pv, 0), rcmp("<=", pv, 1))
+            inrange = And(Not(pn), rcmp(">=", pv, 0), rcmp("<=", pv, 1))
             goal = inrange if res == "accepted" else Not(inrange)
             v = ex.prove(goal)
             rep.record("V1-probability-accepted-iff-in-0-1", v.status, v.seconds)
             if v.status == "sat":
                 env = DefaultEnv(model_env(v.model))
-                rep.violation("V1-probability-accepted-iff-in-0-1", f"validator:{name}", f"{name}={float(env['p'])} was {res}", {"contract": "validator", "field": name, "value": float(env["p"])})
+                val = float("nan") if env["p#nan"] else float(env["p"])
+                rep.violation("V1-probability-accepted-iff-in-0-1", f"validator:{name}", f"{name}={val} was {res}", {"contract": "validator", "field": name, "value": "nan" if val != val else val})
             elif v.status == "unknown":
                 rep.inconclusive_item("V1", "unknown")
     # scale: float >= 0 accepted, negative rejected (the validator tests isinstance(scale, float), so it is given real floats: decided by sign cases via the solver on the comparison only)
@@ -194,6 +196,7 @@ def replay(cfg, inputs, obligation):
     if inputs.get("contract") == "validator":
         from sleap_nn.config.data_config import IntensityConfig, GeometricConfig, PreprocessingConfig
         f, v = inputs["field"], inputs["value"]
+        v = float("nan") if v == "nan" else v
         try:
             if f == "scale":
                 PreprocessingConfig(scale=v)
